@@ -10,10 +10,11 @@ Inductive inode :=
 | IFile (dev : N) (mtime : Z) (st_size : N) (data : list N)         (* st_size kept apart from the content *)
 | ISpecial (dev : N) (k : fkind).
 
-Inductive prim := POpen | PStat | PFstat | PScandir | PRead.
+(* PMOpen: open(path) of the Python level (how Manifest files are opened), as opposed to os.open (hashing) *)
+Inductive prim := POpen | PStat | PFstat | PScandir | PRead | PMOpen.
 Definition prim_eqb (a b : prim) : bool :=
   match a, b with
-  | POpen, POpen | PStat, PStat | PFstat, PFstat | PScandir, PScandir | PRead, PRead => true
+  | POpen, POpen | PStat, PStat | PFstat, PFstat | PScandir, PScandir | PRead, PRead | PMOpen, PMOpen => true
   | _, _ => false
   end.
 
@@ -140,7 +141,10 @@ Definition p_read (w : world) (i : N) : res (list N) :=
 (* open(path, 'rb') of the Python level: a directory cannot be opened for reading *)
 Definition p_open_file (w : world) (path : list N) : res N :=
   i <- p_open w path ;;
-  match node w i with Some (IDir _ _ _) => Err (XOS EISDIR) | _ => Ok i end.
+  match fault w PMOpen i with
+  | Some e => Err (XOS e)
+  | None => match node w i with Some (IDir _ _ _) => Err (XOS EISDIR) | _ => Ok i end
+  end.
 
 (* os.scandir(path) as os.walk uses it: (name, is_dir) in directory order; is_dir() swallows errors *)
 Definition p_scandir (w : world) (path : list N) : res (list (list N * bool)) :=
